@@ -47,7 +47,7 @@ class C01(Prop):
         rng = random.Random(1)
         full = {"clock": "datetime", "step": 10, "n_steps": 4, "pop": 12, "seed": 7, "crn_keys": 2, "map_size": 10000,
                 "births": [2, 0, 1], "mort": {"mods": 1}, "disease": {"states": 3, "p": [5, 8], "self": True},
-                "stepmod": {"every": 3, "mult": 2}, "obs": {"strats": 3, "concat": True, "values": 5}}
+                "stepmod": {"every": 3, "mult": 2}, "obs": {"strats": 3, "concat": True, "values": 5}, "extras": {"pafs": [0.25, 0.5]}}
         vary = dict(full, step=1, n_steps=9, pop=6, births=[1, 0], disease=None, obs=None, stepmod={"every": 2, "mult": 3, "vary": True})
         # the last step taken is longer than the step the clock has afterwards (found with VERIF_SEED=3: F21, second commit)
         shrink = {"clock": "datetime", "step": 0.5, "n_steps": 7, "pop": 1, "seed": 9015, "crn_keys": 0, "map_size": 100003,
@@ -61,7 +61,7 @@ class C01(Prop):
 
     def shrink(self, case):
         s = case["spec"]
-        for k in ("obs", "disease", "mort", "stepmod"):
+        for k in ("obs", "disease", "mort", "stepmod", "extras"):
             if s.get(k):
                 yield dict(case, spec=dict(s, **{k: None}))
         if s["n_steps"] > 1:
@@ -142,7 +142,7 @@ class C01(Prop):
     def tags(self, case, obs):
         s = case["spec"]
         t = [s["clock"], f"crn{s['crn_keys']}", "pop0" if s["pop"] == 0 else "pop1" if s["pop"] == 1 else "pop+"]
-        for k in ("mort", "disease", "stepmod", "obs"):
+        for k in ("mort", "disease", "stepmod", "obs", "extras"):
             t.append(k if s.get(k) else "no-" + k)
         t += ["mode:" + h["mode"] for h in case["histories"]]
         t += [f"prior{h['prior']}" for h in case["histories"]]
